@@ -117,6 +117,18 @@ func genSCase(t *rapid.T) SCase {
 		}
 		c.Blocks = append(c.Blocks, bs)
 	}
+	// Governance storyline (aimed at native caches rebuilt by the state jump): a candidate registers, the genesis
+	// holder votes for it, then its account is blocked by Policy; whether it sits in the next committee depends on
+	// the blocked list of the state the node jumps to.
+	if rapid.IntRange(0, 2).Draw(t, "gov_story") == 0 {
+		cand := rapid.IntRange(0, ck.NCandidates-1).Draw(t, "gov_cand")
+		at := rapid.IntRange(0, 4).Draw(t, "gov_at")
+		nonce := rapid.Uint32().Draw(t, "gov_nonce")
+		c.Blocks[at].Txs = append(c.Blocks[at].Txs, ck.Action{Kind: "register", From: ck.NAccounts + cand, A: cand, Nonce: nonce})
+		c.Blocks[at+1].Txs = append(c.Blocks[at+1].Txs, ck.Action{Kind: "vote", From: ck.PValidators, A: cand, Nonce: nonce + 1})
+		bl := at + 2 + rapid.IntRange(0, 3).Draw(t, "gov_gap")
+		c.Blocks[bl].Txs = append(c.Blocks[bl].Txs, ck.Action{Kind: "policy", S: "blockCandidate", From: 4, A: cand, Nonce: nonce + 2})
+	}
 	total := nb + 2
 	I := c.Chain.StateSyncInterval
 	c.InitAt = rapid.IntRange(2*I, total-1).Draw(t, "init_at")
@@ -954,6 +966,22 @@ func (d *driver) atSyncPoint(who string) error {
 	return nil
 }
 
+// explain replays the source blocks 1..h on a fresh node and reports how the synced node's state differs from it
+// (diagnostics for a failure message only).
+func (d *driver) explain(h uint32) string {
+	ref, err := ck.NewNode(d.c.Chain, ck.NodeCfg{Backend: "mem"}, nil)
+	if err != nil {
+		return ""
+	}
+	defer ref.Close()
+	for i := uint32(1); i <= h; i++ {
+		if err := ref.BC.AddBlock(d.src.blk(i)); err != nil {
+			return fmt.Sprintf("; (a replaying node rejects block %d: %v)", i, err)
+		}
+	}
+	return "; replayed node vs synced node: " + ck.Diff(ck.FullDump(ref.BC, nil), ck.FullDump(d.n.bc, nil))
+}
+
 // lockstep feeds blocks P+1..upTo through ordinary block processing and compares roots.
 func (d *driver) lockstep(who string, upTo uint32, sched bool) error {
 	for i := d.src.P + 1; i <= upTo; i++ {
@@ -965,7 +993,7 @@ func (d *driver) lockstep(who string, upTo uint32, sched bool) error {
 			return fmt.Errorf("%s: no state root for block %d: %v", who, i, err)
 		}
 		if want := d.src.root(i); sr.Root != want {
-			return fmt.Errorf("%s: state root of block %d is %s, source has %s", who, i, sr.Root.StringLE(), want.StringLE())
+			return fmt.Errorf("%s: state root of block %d is %s, source has %s%s", who, i, sr.Root.StringLE(), want.StringLE(), d.explain(i))
 		}
 		d.o.Units(1)
 		if !sched || int(i) >= len(d.c.Tail) {
